@@ -832,6 +832,50 @@ def replay_model(r):
     return (not ok), {"dir": d, "config": {"default": default, "locales": locs, "namespaces": ns}, "real": real, "expected": list(exp)}
 
 
+def files_read_stage():
+    """-> (number of projects, mismatches). Each project: <root>/crate/Cargo.toml with a `locales-dir`, the directory it names
+    holds en.json / fr.json with the key `marker_<i>`; every other candidate directory holds files that are not JSON."""
+    import shutil
+    work = os.path.join(report.VERIF, "work", "C19", "files")
+    if os.path.isdir(work):
+        shutil.rmtree(work)
+    spellings = [None, "./locales", "locales", "./i18n", "assets/i18n", "./assets/i18n/", "../shared/locales", "./../shared/locales", ".hidden/loc", "../crate/other", "./.config/../tr"]
+    decoys = ["locales", "i18n", "assets/i18n", "shared/locales", "hidden/loc", "crate/other", "config/../tr", "tr", "other", "loc"]
+    dirs, meta = [], {}
+    for i, sp in enumerate(spellings):
+        root = os.path.join(work, "p%d" % i)
+        crate = os.path.join(root, "crate")
+        os.makedirs(crate)
+        right = os.path.normpath(os.path.join(crate, sp if sp is not None else "locales"))
+        for d in decoys:
+            for base in (crate, root):
+                dd = os.path.normpath(os.path.join(base, d))
+                if dd != right and not right.startswith(dd + os.sep) and not dd.startswith(right + os.sep):
+                    os.makedirs(dd, exist_ok=True)
+                    for l in ("en", "fr"):
+                        if not os.path.exists(os.path.join(dd, l + ".json")):
+                            with open(os.path.join(dd, l + ".json"), "w") as f:
+                                f.write("this is a decoy, not JSON")
+        os.makedirs(right, exist_ok=True)
+        for l in ("en", "fr"):
+            with open(os.path.join(right, l + ".json"), "w") as f:
+                json.dump({"marker_%d" % i: "v " + l}, f)
+        with open(os.path.join(crate, "Cargo.toml"), "w") as f:
+            f.write('[package]\nname = "p"\nversion = "0.1.0"\n[package.metadata.leptos-i18n]\ndefault = "en"\nlocales = ["en", "fr"]\n' + ('locales-dir = %s\n' % json.dumps(sp) if sp is not None else ""))
+        dirs.append(crate)
+        meta[crate] = (sp, i)
+    res = hostrun.batch(dirs)
+    bad = []
+    for d in dirs:
+        sp, i = meta[d]
+        h = res.get(d) or {}
+        if h.get("status") != "ok":
+            bad.append({"locales_dir": sp, "dir": d, "what": "loading failed: %s %s" % (h.get("status"), str(h.get("error"))[:200])})
+        elif ("marker_%d" % i) not in json.dumps(h):
+            bad.append({"locales_dir": sp, "dir": d, "what": "loaded, but the key of the configured directory is not among the keys"})
+    return len(dirs), bad
+
+
 def run(tier, seed):
     prop = "C19"
     t0 = time.time()
@@ -900,6 +944,20 @@ def run(tier, seed):
             print("VIOLATION property=C19 replay=%s" % path)
             print("  config=%s real=%s" % (json.dumps(b["config"]), json.dumps(b["real"])[:200]))
             violations += 1
+    # which files are read (third sentence, concrete): `locales-dir` spellings, the right directory holds the marked key,
+    # decoy directories a trimmed / re-rooted spelling would reach hold invalid JSON
+    files_stage = {"projects": 0, "mismatches": 0}
+    if not violations:
+        try:
+            bad = files_read_stage()
+            files_stage = {"projects": bad[0], "mismatches": len(bad[1])}
+            for b in bad[1][:2]:
+                path = report.write_replay(prop, "files_%d" % (violations + 1), dict(b, note="found by the concrete stage (real parse_locales on a written project), not by the solver"))
+                print("VIOLATION property=C19 replay=%s" % path)
+                print("  locales-dir = %r: %s" % (b["locales_dir"], b["what"][:200]))
+                violations += 1
+        except Exception as e:
+            inconclusive.append("files-read stage failed: %s" % str(e)[-200:])
     wall = time.time() - t0
     so, so_problems = second.verdict()
     for pr in so_problems:
@@ -909,7 +967,7 @@ def run(tier, seed):
         "rule": "one symbolic execution of ConfigFile::new per (number of listed locales, namespaces absent / number of namespaces); every MIR path is one evaluation, its result is checked against the statement by z3 for all values of the names; a final query checks that the paths cover every input",
         "samples": [{k: v for k, v in r.items() if k not in ("calls", "mir_fns")} for r in runs[:3]] or [{"note": "none"}],
         "states": sum(r["paths"] for r in runs) or 1, "transitions": sum(r.get("solver_checks", 0) for r in runs) or 1,
-        "traces_validated_against_impl": replayed + native["configurations"], "native_stage": native,
+        "traces_validated_against_impl": replayed + native["configurations"] + files_stage["projects"], "native_stage": native, "files_read_stage": dict(files_stage, what="11 spellings of locales-dir (absent, ./x, x, nested, ../sibling, hidden directory, ..) with decoy directories: the real parser must load the files of the configured directory"),
         "runs": [{k: v for k, v in r.items() if k not in ("calls", "mir_fns")} for r in runs],
         "visitor_runs": [{k: v for k, v in r.items() if k not in ("calls", "mir_fns")} for r in vruns],
         "solver": "z3 %s" % z3.get_version_string(), "solver_s": round(sum(r.get("solver_s", 0) for r in runs), 3),
